@@ -15,9 +15,10 @@
    (suite "pair": random topologies with NATed endpoints and one-way links, loss / duplication /
    reordering, restarts), each agent's half being simultaneously checked against the core model:
    mirror images at quiescence and both Connected after a fair loss-free suffix.  Not proved: the
-   mirror-image and liveness parts, and (1), (2) for lite agents. *)
+   mirror-image and liveness parts, and (2) for lite agents ((1) holds for lite agents too:
+   C01_never_connected_without_bidirectional_path_any). *)
 From Coq Require Import ZArith Bool List.
-From Ice Require Import Model.AgentTypes Model.AgentCore Model.PairMonitor Model.TwoAgents Gen.Consts Proofs.AgentFrame Proofs.AgentC01 Proofs.TwoAgentsProofs Proofs.TwoAgentsReach.
+From Ice Require Import Model.AgentTypes Model.AgentCore Model.PairMonitor Model.TwoAgents Gen.Consts Proofs.AgentFrame Proofs.AgentC01 Proofs.TwoAgentsProofs Proofs.TwoAgentsReach Proofs.TwoAgentsLite.
 Import ListNotations.
 Local Open Scope Z_scope.
 
@@ -53,6 +54,21 @@ Print Assumptions C01_valid_pairs_reachable_both_ways_partial.
 (* non-vacuity, and the hypothesis is needed: one host candidate each; the same schedule leaves both
    agents Checking with nothing selected when the link carries only A->B, and brings both to
    Connected on the same pair when it carries both directions *)
+(* (1) for full AND lite agents, any mix: a lite agent selects on a nomination alone, so the invariant also says that
+   nobody nominates -- no agent has a nomination under way and no Binding request in flight carries USE-CANDIDATE or a
+   nomination value (nominations are only sent for valid pairs; since the repair afd0894 also by RenominateCandidate,
+   which before it connected a lite peer over a one-way path: fixed finding) *)
+Theorem C01_never_connected_without_bidirectional_path_any : forall cfga cfgb t lua lpa lub lpb ops,
+  topo_wf t -> topo_bidirectional t = false ->
+  let sy := sys_run cfga cfgb t (sys_init lua lpa lub lpb) ops in
+  (s_selected (sy_a sy) = None /\ s_selected (sy_b sy) = None) /\
+  (Forall (fun p => p_state p <> CandidatePairStateSucceeded) (s_checklist (sy_a sy)) /\
+   Forall (fun p => p_state p <> CandidatePairStateSucceeded) (s_checklist (sy_b sy))) /\
+  (s_closed (sy_a sy) = false -> s_conn (sy_a sy) <> ConnectionStateConnected /\ s_conn (sy_a sy) <> ConnectionStateDisconnected) /\
+  (s_closed (sy_b sy) = false -> s_conn (sy_b sy) <> ConnectionStateConnected /\ s_conn (sy_b sy) <> ConnectionStateDisconnected).
+Proof. exact never_connected_without_bidirectional_path_any. Qed.
+Print Assumptions C01_never_connected_without_bidirectional_path_any.
+
 Module C01_example_two_agents.
   Definition cfg t := mkConfig false t 7 5000000000 false 25000000000 0 0 0 0 0 [] false false 1.
   Definition aA := mkAddr false 167772161 5000.
